@@ -76,4 +76,92 @@ func genesisGroupingGen(repo string, emit func(name, leanDef string, err error))
 	emit("assetsExportLoops", "/-- x/assets exporters: (function, declarations of the result / previous-id variables before the loop, statements of the loop body) -/\ndef assetsExportLoops : List (String × List String × List String) := [\n  "+strings.Join(rows, ",\n  ")+"]", nil)
 }
 
-func init() { factGens = append(factGens, genesisGroupingGen) }
+// exportLoopsSkipNothing: the collection exporters behind ExportGenesis of x/assets and x/delegation append EVERY entry
+// their iterator yields. Per exporter: (function, loops, branch statements — continue / break / goto — anywhere in the
+// function, append calls inside a loop — or inside the callback handed to an Iterate… helper — that sit under an `if`). The only guarded appends of the code as it is are the two
+// that open a new group in AllDeposits / AllOperatorAssets (pinned statement by statement by assetsExportLoops); a filter
+// in an exporter loop (`if … { continue }`, or the append moved under a test) changes a count and breaks
+// C18_tie_export_loops_skip_nothing. What a filter costs is C18_assets_filtered_export_roundtrip_iff (Props/C18Pools.lean).
+func exportSkipShape(fd *ast.FuncDecl) (loops, branches, guardedAppends int) {
+	var walk func(n ast.Node, inLoop, underIf bool)
+	walk = func(n ast.Node, inLoop, underIf bool) {
+		if n == nil {
+			return
+		}
+		switch s := n.(type) {
+		case *ast.ForStmt:
+			loops++
+			walk(s.Body, true, false)
+			return
+		case *ast.RangeStmt:
+			loops++
+			walk(s.Body, true, false)
+			return
+		case *ast.BranchStmt:
+			branches++
+			return
+		case *ast.IfStmt:
+			if s.Init != nil {
+				walk(s.Init, inLoop, underIf)
+			}
+			walk(s.Body, inLoop, true)
+			if s.Else != nil {
+				walk(s.Else, inLoop, true)
+			}
+			return
+		case *ast.SwitchStmt:
+			walk(s.Body, inLoop, true)
+			return
+		case *ast.CallExpr:
+			if id, ok := s.Fun.(*ast.Ident); ok && id.Name == "append" && inLoop && underIf {
+				guardedAppends++
+			}
+		case *ast.FuncLit:
+			// the per-entry callback of an Iterate… helper is a loop body (GetAllClientChainInfo)
+			walk(s.Body, true, false)
+			return
+		}
+		ast.Inspect(n, func(c ast.Node) bool {
+			if c == nil || c == n {
+				return true
+			}
+			walk(c, inLoop, underIf)
+			return false
+		})
+	}
+	walk(fd.Body, false, false)
+	return
+}
+
+func genesisExportSkipGen(repo string, emit func(name, leanDef string, err error)) {
+	const name = "exportLoopsSkipNothing"
+	fset := token.NewFileSet()
+	var rows []string
+	for _, c := range []struct{ file, fn string }{
+		{"x/assets/keeper/client_chain.go", "IterateAllClientChains"},
+		{"x/assets/keeper/client_chain.go", "GetAllClientChainInfo"},
+		{"x/assets/keeper/client_chain_asset.go", "GetAllStakingAssetsInfo"},
+		{"x/assets/keeper/staker_asset.go", "AllDeposits"},
+		{"x/assets/keeper/operator_asset.go", "AllOperatorAssets"},
+		{"x/delegation/keeper/delegation_state.go", "GetAllAssociations"},
+		{"x/delegation/keeper/delegation_state.go", "AllDelegationStates"},
+		{"x/delegation/keeper/delegation_state.go", "AllStakerList"},
+		{"x/delegation/keeper/un_delegation_state.go", "AllUndelegations"},
+	} {
+		f, err := parser.ParseFile(fset, repo+"/"+c.file, nil, 0)
+		if err != nil {
+			emit(name, "", err)
+			return
+		}
+		fd := findFunc(f, "Keeper."+c.fn)
+		if fd == nil || fd.Body == nil {
+			emit(name, "", fmt.Errorf("%s not found in %s", c.fn, c.file))
+			return
+		}
+		l, b, g := exportSkipShape(fd)
+		rows = append(rows, fmt.Sprintf("(%q, %d, %d, %d)", c.fn, l, b, g))
+	}
+	emit(name, "/-- collection exporters of x/assets and x/delegation: (function, loops, continue/break/goto statements, append calls under an `if` inside a loop) -/\ndef "+name+" : List (String × Nat × Nat × Nat) := [\n  "+strings.Join(rows, ",\n  ")+"]", nil)
+}
+
+func init() { factGens = append(factGens, genesisGroupingGen, genesisExportSkipGen) }
